@@ -119,6 +119,8 @@ Qed.
 Definition bp_res (r : option (loopres (list BasePattern) (list BasePattern * nat * bool))) : option (list BasePattern * nat * bool) :=
   match r with Some (LoopDone x) => Some x | _ => None end.
 
+Lemma beqb_sym a b : Bool.eqb a b = Bool.eqb b a.
+Proof. destruct a, b; reflexivity. Qed.
 Lemma link_bp_loop : forall l i acc j rigid,
   option_map (fun x => map convb (fst (fst x) ++ [BasePattern_mk (snd (fst x)) (i + length l) (snd x) 0 0]))
              (bp_res (fn_base_patterns_loop1 (combine (seq i (length l)) l) acc j rigid))
@@ -128,6 +130,7 @@ Proof.
   - cbn. rewrite Nat.add_0_r, map_app. reflexivity.
   - cbn [length seq combine fn_base_patterns_loop1 map base_patterns_go].
     rewrite link_is_range. cbn [bind]. rewrite is_range_conv. fold (BaseRegLan_is_range (RE_expr x)).
+    rewrite ?(beqb_sym (BaseRegLan_is_range (RE_expr x)) rigid).
     destruct (Bool.eqb rigid (BaseRegLan_is_range (RE_expr x))) eqn:E; cbn [negb].
     + replace (i + S (length l)) with (S i + length l) by lia. apply IH.
     + rewrite canon_bp_make. cbn [bind].
@@ -201,7 +204,8 @@ Lemma link_next_rigid_match p s i :
   option_map convsr (M_fn_next_rigid_match p s i) = Some (next_rigid_match (map conv p) (map conv_re s) i).
 Proof.
   unfold M_fn_next_rigid_match, fn_next_rigid_match, next_rigid_match. rewrite !map_length.
-  destruct (Nat.leb (length p) (length s)) eqn:E; [|reflexivity]. apply Nat.leb_le in E.
+  rewrite ?Nat.ltb_antisym.
+  destruct (Nat.leb (length p) (length s)) eqn:E; cbn [negb]; [|reflexivity]. apply Nat.leb_le in E.
   unfold usize_sub. replace (Nat.leb (length p) (length s)) with true by lia. cbn [bind].
   assert (Hl : Forall (fun j => j + length p <= length s) (seq i (S (length s - length p) - i))).
   { apply Forall_forall. intros j Hj. apply in_seq in Hj. lia. }
@@ -273,8 +277,8 @@ Lemma link_rigid_prefix_match u v p : pat_ok v p ->
   M_fn_rigid_prefix_match u v p = Some (rigid_prefix_match (map conv_re u) (map conv_re v) (convb p)).
 Proof.
   intros [[H1 H2] Hr]. unfold M_fn_rigid_prefix_match, fn_rigid_prefix_match, rigid_prefix_match, pat_sets.
-  rewrite (link_bp_len p H1). cbn [bind]. rewrite map_length.
-  destruct (Nat.leb (b_len (convb p)) (length u)) eqn:E; [|reflexivity]. apply Nat.leb_le in E.
+  rewrite (link_bp_len p H1). cbn [bind]. rewrite map_length. rewrite ?Nat.ltb_antisym.
+  destruct (Nat.leb (b_len (convb p)) (length u)) eqn:E; cbn [negb]; [|reflexivity]. apply Nat.leb_le in E.
   unfold slice_range. replace (Nat.leb (BasePattern_start p) (BasePattern_end p) && Nat.leb (BasePattern_end p) (length v)) with true by lia.
   cbn [bind]. pose proof (link_char_sets_of_pattern _ Hr) as Hc. pose proof (csp_length _ Hr) as Hlen.
   destruct (M_fn_char_sets_of_pattern _) as [cs0|]; [|discriminate Hc]. cbn [option_map] in Hc. injection Hc as Hc.
@@ -289,8 +293,8 @@ Lemma link_rigid_suffix_match u v p : pat_ok v p ->
   M_fn_rigid_suffix_match u v p = Some (rigid_suffix_match (map conv_re u) (map conv_re v) (convb p)).
 Proof.
   intros [[H1 H2] Hr]. unfold M_fn_rigid_suffix_match, fn_rigid_suffix_match, rigid_suffix_match, pat_sets.
-  rewrite (link_bp_len p H1). cbn [bind]. rewrite map_length.
-  destruct (Nat.leb (b_len (convb p)) (length u)) eqn:E; [|reflexivity]. apply Nat.leb_le in E.
+  rewrite (link_bp_len p H1). cbn [bind]. rewrite map_length. rewrite ?Nat.ltb_antisym.
+  destruct (Nat.leb (b_len (convb p)) (length u)) eqn:E; cbn [negb]; [|reflexivity]. apply Nat.leb_le in E.
   unfold slice_range. replace (Nat.leb (BasePattern_start p) (BasePattern_end p) && Nat.leb (BasePattern_end p) (length v)) with true by lia.
   cbn [bind]. pose proof (link_char_sets_of_pattern _ Hr) as Hc. pose proof (csp_length _ Hr) as Hlen.
   destruct (M_fn_char_sets_of_pattern _) as [cs0|]; [|discriminate Hc]. cbn [option_map] in Hc. injection Hc as Hc.
